@@ -22,7 +22,7 @@ from modelx.core.base import (
 )
 from modelx.core.node import (
     OBJ, KEY, get_node, get_node_repr, tuplize_key, key_to_node,
-    ObjectNode
+    node_has_key, ObjectNode
 )
 from modelx.core.formula import (
     Formula, NullFormula, NULL_FORMULA, BoundFunction, replace_docstring,
@@ -860,7 +860,9 @@ class CellsImpl(*_cells_impl_base):
     def check_sanity(self):
         # Check consistency between data elements and nodes in trace graph
         nodes = self.model.tracegraph.get_nodes_with(self)
-        assert set(self.data.keys()) == set(n[KEY] for n in nodes)
+        # Uncached cells have an object node ``(cells,)`` with no key
+        assert set(self.data.keys()) == set(
+            n[KEY] for n in nodes if node_has_key(n))
         return True
 
 
